@@ -248,10 +248,10 @@ func poke(input OmegaInput) (output OmegaOutput) {
 	}
 
 	// otherwise if N_o...+z not subset of \mathbf{V}_m[n]_u
-	if !isWriteable(o, z, input.Addition.IntegratedPVMMap[n].Memory) { // not writeable, return
+	if !isWriteable(o, z, input.Addition.IntegratedPVMMap[n].Memory) { // not writeable: OOB, the outer machine continues
 		input.VM.Registers[7] = OOB
 		return OmegaOutput{
-			ExitReason: ExitPanic,
+			ExitReason: ExitContinue,
 			Addition:   input.Addition,
 		}
 	}
